@@ -215,6 +215,12 @@ def check_case(case: Case, prop: str) -> Tuple[Optional[str], str]:
                 return f"independent decoder rejects datagram {pi} (corrupt, or header counts != entries present): {e2}", "bad"
         secs = [ref.questions, ref.answers, ref.authorities, ref.additionals]
         count = sum(len(s) for s in secs)
+        # every datagram of the sequence is a datagram of THIS message: the id it was built with (0 when multicast) and its
+        # flags (the TC bit apart)
+        want_id = 0 if case.multicast else case.id
+        if ref.id != want_id or (ref.flags & ~wire.F_TC) != (case.flags & ~wire.F_TC):
+            return (f"datagram {pi} of {len(packets)} carries id {ref.id:#x} flags {ref.flags:#x}, the message was built with "
+                    f"id {want_id:#x} flags {case.flags:#x}"), "bad"
         if case.big:
             continue
         if c14:
